@@ -66,27 +66,79 @@ def base_store():
     return c['pre']['base']
 
 
-def pre_state(tree):
-    """config + one snapshot of the tree (taken under the default schedule)."""
+def pre_state(tree, nsnap=1):
+    """config + nsnap snapshots of the tree (taken under the default schedule)."""
     c = ctx()
-    if tree not in c['pre']:
+    key = (tree, nsnap)
+    if key not in c['pre']:
         st = W.Store(base_store())
         d = src_dir(tree)
 
         async def go():
             r = await W.a_open(st, None, N=2)
             with W.captured():
-                await r.snapshot(paths=[d])
+                for _ in range(nsnap):
+                    await r.snapshot(paths=[d])
                 await r.close()
 
         W.set_clock()
         W.run(go)
-        c['pre'][tree] = dict(st.o)
-    return c['pre'][tree]
+        c['pre'][key] = dict(st.o)
+    return c['pre'][key]
 
 
 class Injected(Exception):
     pass
+
+
+class InjectedOS(OSError):
+    pass
+
+
+import contextlib
+import pathlib
+
+
+@contextlib.contextmanager
+def failing_source(fault, d):
+    """Make reading one source file fail: at open, or at its n-th read."""
+    if fault is None or not str(fault[0]).startswith('source-'):
+        yield
+        return
+    real_open = pathlib.Path.open
+    target = str(d / 'f1')
+
+    class FailingFile:
+        def __init__(self, f):
+            self.f, self.n = f, 0
+
+        def read(self, *a):
+            self.n += 1
+            if self.n == fault[1]:
+                raise InjectedOS(5, 'Input/output error (injected)')
+            return self.f.read(*a)
+
+        def __enter__(self):
+            return self
+
+        def __exit__(self, *a):
+            self.f.close()
+
+        def __getattr__(self, k):
+            return getattr(self.f, k)
+
+    def patched(self, mode='r', *a, **k):
+        if str(self) == target and 'r' in mode and 'b' in mode:
+            if fault[0] == 'source-open':
+                raise InjectedOS(13, 'Permission denied (injected)')
+            return FailingFile(real_open(self, mode, *a, **k))
+        return real_open(self, mode, *a, **k)
+
+    pathlib.Path.open = patched
+    try:
+        yield
+    finally:
+        pathlib.Path.open = real_open
 
 
 def check_manifest(repo, store, res, d, tree):
@@ -129,13 +181,13 @@ def run_c09(params, prefix):
     c = ctx()
     c['n'] += 1
     d = src_dir(tree)
-    store = W.Store(base_store() if kind == 'snapshot' else pre_state(tree))
+    store = W.Store(base_store() if kind == 'snapshot' else pre_state(tree, params.get('nsnap', 1)))
     target = c['sc'].path / f't{c["n"]}'
     holder = {}
     W.set_clock()
     W.set_random('c09x')
 
-    if fault is not None:
+    if fault is not None and not str(fault[0]).startswith('source-'):
         fkind, fnth = fault
         seen = {'n': 0}
 
@@ -157,8 +209,9 @@ def run_c09(params, prefix):
                 res = await repo.restore(path=target, rate_limit=params.get('rate'))
         return res
 
-    x = dsched.run_one(lambda loop, s: go(), prefix, horizon=params.get('horizon', 6000),
-                       fp_hook=store.fp, collect_states=True, want_env=(be == 'async'))
+    with failing_source(fault, d):
+        x = dsched.run_one(lambda loop, s: go(), prefix, horizon=params.get('horizon', 6000),
+                           fp_hook=store.fp, collect_states=True, want_env=(be == 'async'))
     repo = holder.get('repo')
     viol = []
     out = {'points': x.points, 'states': x.states, 'edges': x.edges, 'err': None}
@@ -195,7 +248,7 @@ def run_c09(params, prefix):
         LAST_TB[:] = traceback.format_exception(x.exc)
         ename = type(x.exc).__name__
         outcome = ('EXC', ename)
-        if fault is None or not isinstance(x.exc, Injected):
+        if fault is None or not isinstance(x.exc, (Injected, InjectedOS)):
             bad('exception', exc=ename, msg=repr(x.exc)[:300])
     else:
         if fault is not None:
@@ -268,8 +321,16 @@ def harnesses(t):
         hs.append({'kind': 'snapshot', 'tree': 'snapA', 'N': 2, 'be': be, 'rate': 64})
         hs.append({'kind': 'restore', 'tree': 'restB', 'N': 2, 'be': be, 'rate': 64})
         hs.append({'kind': 'snapshot', 'tree': 'snapC', 'N': 1, 'be': be, 'horizon': 12000})
+        # more snapshots than slots: loading them is subject to the transfer limit as well
+        hs.append({'kind': 'restore', 'tree': 'restS', 'N': 2, 'be': be, 'nsnap': 5})
+        hs.append({'kind': 'restore', 'tree': 'restS', 'N': 1, 'be': be, 'nsnap': 3})
         for N in (1, 2):
             hs.append({'kind': 'snapshot', 'tree': 'snapA', 'N': N, 'be': be, 'fault': ('upload_stream', 2)})
+            if be == 'plain':
+                # a source file that cannot be opened / read: the snapshot must fail, not publish partial state
+                hs.append({'kind': 'snapshot', 'tree': 'snapA', 'N': N, 'be': be, 'fault': ('source-open', 1)})
+                hs.append({'kind': 'snapshot', 'tree': 'snapA', 'N': N, 'be': be, 'fault': ('source-read', 1)})
+                hs.append({'kind': 'snapshot', 'tree': 'snapA', 'N': N, 'be': be, 'fault': ('source-read', 2)})
             hs.append({'kind': 'restore', 'tree': 'restB', 'N': N, 'be': be, 'fault': ('download_stream', 2)})
     return hs
 
